@@ -420,7 +420,10 @@ def normalise_locals(unit, s, log):
     if not base or len(base) != len(cur) or base == cur:
         return s
     mp = {}
+    sb, sc = set(base), set(cur)
     for c, b in zip(cur, base):
+        if c != b and (c in sb or b in sc):
+            return s                      # the same names in another ORDER: statements were moved, nothing was renamed
         if mp.setdefault(c, b) != b:
             return s                      # one current name for two baseline names: not a pure renaming
     mp = {c: b for c, b in mp.items() if c != b}
